@@ -77,6 +77,7 @@ pub fn build_world(seed: u64, tokens: &str, rewards: bool, adaptive: bool, rec: 
         "t22" => (TokProg::T22, None),
         _ => (TokProg::T22, Some(())),
     };
+    let mut hooked: Vec<String> = vec![];
     for (i, n) in ["A", "B", "R"].iter().enumerate() {
         // (the reward mint charges a transfer fee in half of the transfer-fee worlds with rewards)
         let f = if fee.is_some() && (*n != "R" || (rewards && w.rng.gen_bool(0.5))) {
@@ -86,7 +87,26 @@ pub fn build_world(seed: u64, tokens: &str, rewards: bool, adaptive: bool, rec: 
         } else {
             None
         };
+        // Token-2022 pool mints sometimes carry a further extension, initialised before or after the transfer-fee config
+        // (TLV entries are stored in initialisation order): metadata pointer, interest-bearing, or a transfer hook without
+        // a program (admitted only with a token badge)
+        let extra: u8 = if prog == TokProg::T22 && *n != "R" && w.rng.gen_bool(0.35) { w.rng.gen_range(1..=4) } else { 0 };
+        crate::world::MINT_EXTRA.with(|c| c.set(extra));
         w.add_mint_keyed(n, keys[i], prog.clone(), f);
+        crate::world::MINT_EXTRA.with(|c| c.set(0));
+        if extra >= 3 {
+            hooked.push(n.to_string());
+        }
+    }
+    if !hooked.is_empty() {
+        let ix = w.ix_init_config_extension("C1");
+        w.must_ix(&ix);
+        let ix = w.ix_set_config_feature_flag("C1", true);
+        w.must_ix(&ix);
+        for m in &hooked {
+            let ix = w.ix_init_token_badge("C1", m);
+            w.must_ix(&ix);
+        }
     }
     for u in ["U1", "U2", "U3", "feeAuthC1", "collectAuthC1", "rewardAuthC1"] {
         for m in ["A", "B", "R"] {
